@@ -21,6 +21,7 @@ EXPLANATION = (
     "R3 return-rank agreement of the log record routine (all return paths yield a rank-0 value). R4 every key stored by the result builder is "
     "in the allowed-key list. R5 a finiteness test with fallback assignment stands between the GP prediction at the incumbent and its use as "
     "target. R6 shape consistency of the GP refit retry: rows dropped from X and Y are dropped from the noise vector through the same mask, exactly once (shared with C16-R2). Numeric crashes (division by zero, NaN rounding, singular matrices outside fit) are out of static reach and not claimed."
+    " R7 every operand of the retry's thinning mask is computed inside the loop from the current arrays. R8 the size of the high-density subset handed to the GP's bound initialisation is >= 1 for one logged point (constant folding with the ini fraction; the size is monotone in N)."
 )
 
 # keys whose subscript reads are safe for a reason the must-definition analysis cannot see; each entry carries a
